@@ -171,8 +171,12 @@ Record starttag_in := {
   st_inline_first : bool;     (* the node is Sequential / docinfo / table: extra ids go in front *)
   st_empty : bool; st_suffix : text; st_attrs : dict }.
 
-(* None = AssertionError ('id' passed as attribute) *)
-Definition starttag (i : starttag_in) : option text :=
+(* the start tag proper:  <tag k="v" ...>  or  <tag k="v" ... />  *)
+Definition open_tag (tagname : text) (attlist : dict) (empty : bool) : text :=
+  [60] ++ join [32] (tagname :: map render_attr attlist) ++ (if empty then [32; 47] else []) ++ [62].
+
+(* (prefix, tagname, sorted attribute list, suffix); None = AssertionError ('id' passed as attribute) *)
+Definition starttag_parts (i : starttag_in) : option (text * text * dict * text) :=
   (* pydoctor: munge the keyword attributes and node.attributes, then the heading class *)
   let attributes := munge (st_attrs i) in
   let node_classes := map prefix_rst (st_node_classes i) in
@@ -202,8 +206,13 @@ Definition starttag (i : starttag_in) : option text :=
     let in_front := st_empty i || st_inline_first i in
     let prefix := if in_front then spans else [] in
     let suffix := st_suffix i ++ (if in_front then [] else spans) in
-    let parts := tagname :: map render_attr (sort_items atts) in
-    Some (prefix ++ [60] ++ join [32] parts ++ (if st_empty i then [32; 47] else []) ++ [62] ++ suffix)
+    Some (prefix, tagname, sort_items atts, suffix)
+  end.
+
+Definition starttag (i : starttag_in) : option text :=
+  match starttag_parts i with
+  | Some (prefix, tagname, attlist, suffix) => Some (prefix ++ open_tag tagname attlist (st_empty i) ++ suffix)
+  | None => None
   end.
 
 (* ---- wire ---------------------------------------------------------------------------------- *)
